@@ -359,8 +359,8 @@ func TestVerifC28_Window(t *testing.T) {
 		if rotatedApart {
 			verifkit.Class("window/rotated-apart")
 		}
-		// non-trivial: at least two admits lie within one window length of each other
-		// and a rejection happened (the limit was binding), or slots rotated apart.
+		// non-trivial: two admits at distinct times lie within one window length of
+		// each other (the window oracle had something to count).
 		if c28Binding(adm, w) {
 			verifkit.NonTrivial(strings.Join(log, "|"))
 			if verifkit.SampleCount() < 2 {
@@ -374,7 +374,7 @@ func TestVerifC28_Window(t *testing.T) {
 func c28Binding(adm []c28Admit, w int64) bool {
 	for i := range adm {
 		for j := range adm {
-			if adm[i].T != adm[j].T && adm[i].T < adm[j].T && adm[j].T-adm[i].T < w {
+			if adm[i].T < adm[j].T && adm[j].T-adm[i].T < w {
 				return true
 			}
 		}
